@@ -453,4 +453,438 @@ theorem frame_versions_rest (s : List UInt8) (n : UInt8) (r0 : List UInt8) (fs :
       have := decN_version_rest _ _ _ _ hN
       rw [← h.2, this, ← hn.1, Nat.add_comm 1, List.drop_succ_cons]
 
+/-! ### temperatures: `data[name] = value` one after another against the model's `assocOf` -/
+
+/-- a string-keyed dict as its two parallel lists -/
+abbrev D := List String × List V
+
+def dset (d : D) (p : String × V) : D := dictSet d.1 d.2 p.1 p.2
+
+/-- `d[k] = v` for the pairs, in order -/
+def setAll (d : D) (ps : List (String × V)) : D := ps.foldl dset d
+
+theorem dictMerge_setAll (d : D) (ps : List (String × V)) :
+    dictMerge d.1 d.2 (ps.map (·.1)) (ps.map (·.2)) = setAll d ps := by
+  induction ps generalizing d with
+  | nil => simp [dictMerge, setAll]
+  | cons p ps ih =>
+    have := ih (dset d p)
+    simp only [List.map_cons, dictMerge, setAll, List.foldl_cons] at this ⊢
+    exact this
+
+theorem has_dset (d : D) (p : String × V) (k : String) (h : (lookup d.1 d.2 k).isSome) :
+    (lookup (dset d p).1 (dset d p).2 k).isSome := by
+  by_cases hk : p.1 = k
+  · subst hk; simp [dset, lookup_dictSet]
+  · simp [dset, lookup_dictSet_ne _ _ _ _ _ hk, h]
+
+theorem setAll_comm (e : D) (r : List (String × V)) (k : String) (v : V) (hk : ∀ p ∈ r, p.1 ≠ k)
+    (he : (lookup e.1 e.2 k).isSome) : dset (setAll e r) (k, v) = setAll (dset e (k, v)) r := by
+  induction r generalizing e with
+  | nil => rfl
+  | cons p r ih =>
+    have h1 : p.1 ≠ k := hk p (by simp)
+    have h2 := ih (dset e p) (fun q hq => hk q (by simp [hq])) (has_dset e p k he)
+    have h3 : dset (dset e p) (k, v) = dset (dset e (k, v)) p := dictSet_comm e.1 e.2 p.1 k p.2 v h1 he
+    simp only [setAll, List.foldl_cons] at h2 ⊢
+    rw [h2, h3]
+
+theorem mem_keys_assocSet (acc : List (String × V)) (k : String) (v : V) (x : String)
+    (h : x ∈ (assocSet acc k v).map (·.1)) : x ∈ acc.map (·.1) ∨ x = k := by
+  induction acc with
+  | nil => simp [assocSet] at h; exact Or.inr h
+  | cons p acc ih =>
+    obtain ⟨k', v'⟩ := p
+    by_cases hk : k' = k
+    · subst hk
+      have e : (assocSet ((k', v') :: acc) k' v).map (·.1) = ((k', v') :: acc).map (·.1) := by simp [assocSet]
+      rw [e] at h; exact Or.inl h
+    · have hne : (k' == k) = false := by simpa using hk
+      simp only [assocSet, hne, Bool.false_eq_true, if_false, List.map_cons, List.mem_cons] at h ⊢
+      rcases h with h | h
+      · exact Or.inl (Or.inl h)
+      · rcases ih h with h | h
+        · exact Or.inl (Or.inr h)
+        · exact Or.inr h
+
+theorem nodup_assocSet (acc : List (String × V)) (k : String) (v : V) (hn : (acc.map (·.1)).Nodup) :
+    ((assocSet acc k v).map (·.1)).Nodup := by
+  induction acc with
+  | nil => simp [assocSet]
+  | cons p acc ih =>
+    obtain ⟨k', v'⟩ := p
+    have hn0 := hn
+    simp only [List.map_cons, List.nodup_cons] at hn
+    by_cases hk : k' = k
+    · subst hk
+      have e : (assocSet ((k', v') :: acc) k' v).map (·.1) = ((k', v') :: acc).map (·.1) := by simp [assocSet]
+      rw [e]; exact hn0
+    · have hne : (k' == k) = false := by simpa using hk
+      simp only [assocSet, hne, Bool.false_eq_true, if_false, List.map_cons, List.nodup_cons]
+      refine ⟨?_, ih hn.2⟩
+      intro hm
+      rcases mem_keys_assocSet acc k v k' hm with h | h
+      · exact hn.1 h
+      · exact hk h
+
+theorem setAll_assocSet (acc : List (String × V)) (d : D) (k : String) (v : V) (hn : (acc.map (·.1)).Nodup) :
+    setAll d (assocSet acc k v) = dset (setAll d acc) (k, v) := by
+  induction acc generalizing d with
+  | nil => rfl
+  | cons p acc ih =>
+    obtain ⟨k', v'⟩ := p
+    simp only [List.map_cons, List.nodup_cons] at hn
+    by_cases hk : k' = k
+    · subst hk
+      have hnot : ∀ q ∈ acc, q.1 ≠ k' := by
+        intro q hq e; exact hn.1 (by rw [← e]; exact List.mem_map_of_mem hq)
+      have hc := setAll_comm (dset d (k', v')) acc k' v hnot (by simp [dset, lookup_dictSet])
+      have hd : dset (dset d (k', v')) (k', v) = dset d (k', v) := dictSet_dictSet d.1 d.2 k' v' v
+      simp only [assocSet, beq_self_eq_true, if_true, setAll, List.foldl_cons] at hc ⊢
+      rw [hc, hd]
+    · have hne : (k' == k) = false := by simpa using hk
+      have := ih (dset d (k', v')) hn.2
+      simp only [assocSet, hne, setAll, List.foldl_cons] at this ⊢
+      exact this
+
+theorem setAll_assocMerge (d : D) (ps acc : List (String × V)) (hn : (acc.map (·.1)).Nodup) :
+    setAll d (assocMerge acc ps) = setAll (setAll d acc) ps := by
+  induction ps generalizing acc with
+  | nil => simp [assocMerge, setAll]
+  | cons p ps ih =>
+    have := ih (assocSet acc p.1 p.2) (nodup_assocSet acc p.1 p.2 hn)
+    simp only [assocMerge, List.foldl_cons] at this ⊢
+    rw [this, setAll_assocSet acc d p.1 p.2 hn]
+    simp [setAll]
+
+/-- item assignments one after another = merging the model's `dict(pairs)` -/
+theorem setAll_assocOf (d : D) (ps : List (String × V)) : setAll d (assocOf ps) = setAll d ps := by
+  have := setAll_assocMerge d ps [] (by simp)
+  simpa [assocOf, setAll] using this
+
+theorem assocSet_map {α β : Type} (h : α → β) (acc : List (String × α)) (k : String) (v : α) :
+    (assocSet acc k v).map (fun f => (f.1, h f.2)) = assocSet (acc.map fun f => (f.1, h f.2)) k (h v) := by
+  induction acc with
+  | nil => rfl
+  | cons p acc ih =>
+    by_cases hk : p.1 = k
+    · simp [assocSet, hk]
+    · have hne : (p.1 == k) = false := by simpa using hk
+      simp [assocSet, hne, ih]
+
+theorem assocMerge_map {α β : Type} (h : α → β) (ps acc : List (String × α)) :
+    (assocMerge acc ps).map (fun f => (f.1, h f.2)) = assocMerge (acc.map fun f => (f.1, h f.2)) (ps.map fun f => (f.1, h f.2)) := by
+  induction ps generalizing acc with
+  | nil => rfl
+  | cons p ps ih =>
+    simp only [assocMerge, List.foldl_cons, List.map_cons] at ih ⊢
+    rw [ih, assocSet_map]
+
+/-- what one temperature entry does to `data` -/
+def tpair (it : Nat × F32) : Option (String × V) :=
+  if isNaN32 it.2 then none else (Gen.temperaturesNames[it.1]?).map fun n => (n, V.float 4 it.2.toNat)
+
+def tset (d : D) (it : Nat × F32) : D := match tpair it with | some p => dset d p | none => d
+
+theorem temperatures_tbl : PyCode.c_TEMPERATURES = .tuple (Gen.temperaturesNames.map .str) := rfl
+
+theorem le_zero_nat (a : Nat) : Py.le (.int 0) (.int (a : Int)) = .ok (.bool true) := by
+  simp [Py.le, Py.cmpInt, asInt?]
+
+theorem lt_nat (a b : Nat) : Py.lt (.int (a : Int)) (.int (b : Int)) = .ok (.bool (decide (a < b))) := by
+  simp [Py.lt, Py.cmpInt, asInt?]
+
+theorem decTemp_some (s : List UInt8) (it : Nat × F32) (r : List UInt8) (h : decTemp s = some (it, r)) : r = s.drop 5 := by
+  match s with
+  | [] => simp [decTemp, readByte] at h
+  | t :: d1 =>
+    simp only [decTemp, readByte, Option.bind_eq_bind, Option.bind_some, readF32_eq] at h
+    by_cases h4 : d1.length < 4 <;> simp [h4] at h
+    simp [← h.2]
+
+theorem temp_fold (msg : List UInt8)
+    (body : V → V × V → PyM (V × V))
+    (hstep : ∀ (x : V) (off : Nat) (d : D), body x (.int (off : Int), .dict d.1 d.2) =
+      match decTemp (msg.drop off) with
+      | none => .error (verErr msg.length off)
+      | some (it, _) => .ok (.int ((off + 5 : Nat) : Int), .dict (tset d it).1 (tset d it).2))
+    (xs : List V) (off : Nat) (d : D) :
+    List.foldlM (fun s x => body x s) (V.int (off : Int), V.dict d.1 d.2) xs
+      = match decN decTemp xs.length (msg.drop off) with
+        | none => .error (verErr msg.length (off + 5 * (decFail decTemp xs.length (msg.drop off))))
+        | some (ts, _) => .ok (.int ((off + 5 * xs.length : Nat) : Int), .dict (ts.foldl tset d).1 (ts.foldl tset d).2) := by
+  induction xs generalizing off d with
+  | nil => simp [decN]
+  | cons x xs ih =>
+    rw [List.foldlM_cons, hstep]
+    simp only [List.length_cons]
+    unfold decN decFail
+    cases hd : decTemp (msg.drop off) with
+    | none => simp [bind_err]
+    | some p =>
+      obtain ⟨it, r⟩ := p
+      have hr := decTemp_some _ _ _ hd
+      simp only [bind_ok, ih, Option.bind_eq_bind, Option.bind_some, hr, List.drop_drop]
+      cases hN : decN decTemp xs.length (msg.drop (off + 5)) with
+      | none =>
+        have e1 : off + 5 + 5 * decFail decTemp xs.length (msg.drop (off + 5)) = off + 5 * (decFail decTemp xs.length (msg.drop (off + 5)) + 1) := by omega
+        simp [e1]
+      | some q =>
+        obtain ⟨ts, r'⟩ := q
+        have e1 : off + 5 + 5 * xs.length = off + 5 * (xs.length + 1) := by omega
+        simp [e1]
+
+theorem foldl_tset (ts : List (Nat × F32)) (d : D) : ts.foldl tset d = setAll d (ts.filterMap tpair) := by
+  induction ts generalizing d with
+  | nil => rfl
+  | cons it ts ih =>
+    simp only [List.foldl_cons, List.filterMap_cons, ih]
+    unfold tset
+    cases tpair it <;> simp [setAll]
+
+/-- the model's fields of the section, rendered, are the merge of the pairs the code assigns -/
+theorem tempFields_pairs (ts : List (Nat × F32)) :
+    (tempFields ts).map (fun f => (f.1, fieldV f.2)) = assocOf (ts.filterMap tpair) := by
+  unfold tempFields tempFieldsWith assocOf
+  rw [assocMerge_map]
+  have hp : ∀ it : Nat × F32, Option.map (fun f : String × Val => (f.1, fieldV f.2))
+      (if isNaN32 it.2 then none else (Gen.temperaturesNames[it.1]?).map fun n => (n, Val.f32 it.2)) = tpair it := by
+    intro it; unfold tpair
+    by_cases hn : isNaN32 it.2
+    · simp [hn]
+    · cases Gen.temperaturesNames[it.1]? <;> simp [hn, fieldV, recordV, scalarV]
+  rw [List.map_filterMap]
+  have hf : (fun x : Nat × F32 => Option.map (fun f : String × Val => (f.1, fieldV f.2))
+      (if isNaN32 x.2 then none else (Gen.temperaturesNames[x.1]?).map fun n => (n, Val.f32 x.2))) = tpair := funext hp
+  rw [hf]
+  rfl
+
+/-- the dict `ensure_dict(data)` starts from -/
+def baseD : V → D
+  | .dict dk dv => (dk, dv)
+  | _ => ([], [])
+
+theorem merge1_nil (data : V) : merge1 data [] [] = .dict (baseD data).1 (baseD data).2 := by
+  cases data <;> rfl
+
+theorem mergeF_setAll (data : V) (fs : VFields) :
+    mergeF data fs = .dict (setAll (baseD data) (fs.map fun f => (f.1, fieldV f.2))).1
+                           (setAll (baseD data) (fs.map fun f => (f.1, fieldV f.2))).2 := by
+  have := dictMerge_setAll (baseD data) (fs.map fun f => (f.1, fieldV f.2))
+  simp only [List.map_map] at this
+  unfold mergeF merge1
+  cases data <;> simp only [baseD] at this ⊢ <;> rw [← this] <;> rfl
+
+theorem setitem_str (d : D) (n : String) (v : V) : Py.setitem (.dict d.1 d.2) (.str n) v = .ok (.dict (dset d (n, v)).1 (dset d (n, v)).2) := rfl
+
+theorem len_temperatures : Py.len PyCode.c_TEMPERATURES = .ok (.int ((17 : Nat) : Int)) := rfl
+
+theorem names_lt (i : Nat) : (Gen.temperaturesNames[i]?).isSome = decide (i < 17) := by
+  have : Gen.temperaturesNames.length = 17 := rfl
+  by_cases h : i < 17 <;> simp [h, this]
+
+/-- one temperature entry of the loop -/
+theorem temp_step (msg : List UInt8) (x : V) (off : Nat) (d : D) :
+    (do
+      let t4 ← Py.index (.bytes msg) (.int (off : Int))
+      let v_index := t4
+      let v_offset ← Py.add (.int (off : Int)) (V.int 1)
+      let t5 ← Py.wire_from_bytes "Float" "<f" (.bytes msg) v_offset
+      let v_temp := t5
+      let t6 ← Py.getattr v_temp "size"
+      let v_offset ← Py.add v_offset t6
+      let t7 ← Py.getattr v_temp "value"
+      let t8 ← Py.math_isnan t7
+      let t9 ← Py.not t8
+      let t15 ← Py.truthy t9
+      let t16 ← (if t15
+        then do
+          let t10 ← Py.le (V.int 0) v_index
+          let t11 ← Py.truthy t10
+          let t14 ← (if t11
+            then do
+              let t12 ← Py.len PyCode.c_TEMPERATURES
+              let t13 ← Py.lt v_index t12
+              pure t13
+            else pure t10)
+          pure t14
+        else pure t9)
+      let t17 ← Py.truthy t16
+      let v_data ← (if t17 then (do
+          let t18 ← Py.getattr v_temp "value"
+          let t19 ← Py.index PyCode.c_TEMPERATURES v_index
+          let v_data ← Py.setitem (.dict d.1 d.2) t19 t18
+          pure v_data
+        ) else (do
+          pure (.dict d.1 d.2)
+        : PyM (V)))
+      pure (v_offset, v_data) : PyM (V × V))
+      = match decTemp (msg.drop off) with
+        | none => .error (verErr msg.length off)
+        | some (it, _) => .ok (.int ((off + 5 : Nat) : Int), .dict (tset d it).1 (tset d it).2) := by
+  have hl : (msg.drop off).length = msg.length - off := List.length_drop
+  have h0 : msg[off]? = (msg.drop off)[0]? := by simp
+  have h1 : msg.drop (off + 1) = (msg.drop off).drop 1 := by rw [List.drop_drop]
+  have hf : Py.wire_from_bytes "Float" "<f" (.bytes msg) (.int ((off : Int) + 1)) = match readF32 ((msg.drop off).drop 1) with
+      | none => .error .StructError
+      | some (f, _) => .ok (wireObj "Float" (.float 4 f.toNat) 4) := by
+    rw [cast_add_one, from_bytes_f32, h1]; rfl
+  simp only [index_bytes_nat, h0, decTemp, Option.bind_eq_bind]
+  revert hl hf
+  generalize msg.drop off = m
+  intro hl hf
+  match m with
+  | [] =>
+    have : msg.length - off = 0 := by have := hl; simp only [List.length_nil] at this; omega
+    simp [bind_err, readByte, verErr, this]
+  | t :: d1 =>
+    have hne : ¬ msg.length - off = 0 := by have := hl; simp only [List.length_cons] at this; omega
+    simp only [List.drop_succ_cons, List.drop_zero] at hf
+    simp only [List.getElem?_cons_zero, bind_ok, add_int', hf, readByte, Option.bind_some]
+    cases hr : readF32 d1 with
+    | none => simp [bind_err, verErr, hne]
+    | some p =>
+      obtain ⟨f, r⟩ := p
+      have e : (((off : Int) + 1) + ((4 : Nat) : Int)) = ((off + 5 : Nat) : Int) := by omega
+      simp only [bind_ok, getattr_wire_size, getattr_wire_value, add_int', e, math_isnan_f32, not_bool, truthy_bool, byteV_nat,
+        Option.bind_some, pure_eq_ok]
+      unfold tset tpair
+      cases hn : isNaN32 f
+      · simp only [Bool.not_false, if_true, bind_ok, le_zero_nat, truthy_bool, len_temperatures, lt_nat, Bool.false_eq_true, if_false]
+        by_cases hi : t.toNat < 17
+        · have hs := names_lt t.toNat
+          simp only [hi, decide_true] at hs
+          obtain ⟨n, hn'⟩ := Option.isSome_iff_exists.mp hs
+          have hx : (Gen.temperaturesNames.map V.str)[t.toNat]? = some (.str n) := by simp [hn']
+          simp only [hi, decide_true, if_true, bind_ok, temperatures_tbl, index_tuple_nat, hx, setitem_str, hn', Option.map_some]
+          simp [hn, hn']
+        · have hs := names_lt t.toNat
+          simp only [hi, decide_false] at hs
+          have hn' : Gen.temperaturesNames[t.toNat]? = none := by
+            cases h : Gen.temperaturesNames[t.toNat]? with
+            | none => rfl
+            | some _ => simp [h] at hs
+          simp [hi, bind_ok, hn']
+      · simp [bind_ok, truthy_false, hn]
+
+/-- **`TemperaturesStructure.decode`**: count byte, then `count` entries of 5 bytes (index byte, `<f`); the entry whose
+value is no NaN and whose index is below `len(TEMPERATURES)` is assigned into `data` under its name, in order (a later
+entry of the same name overwrites): the model's `tempFields` merged into `data`; the returned offset
+`offset + 1 + 5·count`; the exception class by the entry cut -/
+theorem temperatures_decode_eq (msg : List UInt8) (off : Nat) (data : V) (hd : dataOk data) :
+    PyCode.TemperaturesStructure_decode (.bytes msg) (.int (off : Int)) data
+      = match msg.drop off with
+        | [] => .error .IndexError
+        | nb :: r =>
+          match decN decTemp nb.toNat r with
+          | none => .error (verErr msg.length (off + 1 + 5 * decFail decTemp nb.toNat r))
+          | some (ts, _) => .ok (.tuple [mergeF data (tempFields ts), .int ((off + 1 + 5 * nb.toNat : Nat) : Int)]) := by
+  unfold PyCode.TemperaturesStructure_decode
+  have h0 : msg[off]? = (msg.drop off)[0]? := by simp
+  have h1 : msg.drop (off + 1) = (msg.drop off).drop 1 := by rw [List.drop_drop]
+  simp only [ensure_dict_none _ hd, merge1_nil, index_bytes_nat, add_int', cast_add_one, bind_ok, h0]
+  generalize hm : msg.drop off = m
+  match m with
+  | [] => simp [bind_err]
+  | nb :: r =>
+    have hr : msg.drop (off + 1) = r := by rw [h1, hm]; rfl
+    simp only [List.getElem?_cons_zero, bind_ok, byteV_nat, range_zero, forLoop_list]
+    rw [temp_fold msg]
+    · have hlen : (rangeV 0 nb.toNat).length = nb.toNat := by simp [rangeV]
+      simp only [hlen, hr]
+      cases hN : decN decTemp nb.toNat r with
+      | none => simp [bind_err]
+      | some p =>
+        obtain ⟨ts, r3⟩ := p
+        simp only [bind_ok, pure_eq_ok, mergeF_setAll, tempFields_pairs, setAll_assocOf, foldl_tset]
+    · intro x off d
+      exact temp_step msg x off d
+
+/-- **`TemperaturesStructure.decode` against `Sens.decTemperatures`** in ONE statement -/
+theorem temperatures_decode_model (msg : List UInt8) (off : Nat) (data : V) (hd : dataOk data) :
+    PyCode.TemperaturesStructure_decode (.bytes msg) (.int (off : Int)) data
+      = match readByte (msg.drop off), decTemperatures (msg.drop off) with
+        | some (n, _), some (fs, _) => .ok (.tuple [mergeF data fs, .int ((off + 1 + 5 * n.toNat : Nat) : Int)])
+        | _, _ => .error (match msg.drop off with
+            | [] => .IndexError
+            | nb :: r => verErr msg.length (off + 1 + 5 * decFail decTemp nb.toNat r)) := by
+  rw [temperatures_decode_eq msg off data hd]
+  unfold decTemperatures
+  generalize msg.drop off = m
+  match m with
+  | [] => simp [readByte]
+  | nb :: r =>
+    simp only [readByte, Option.bind_eq_bind, Option.bind_some]
+    cases hN : decN decTemp nb.toNat r with
+    | none => simp
+    | some p => obtain ⟨ts, r3⟩ := p; simp
+
+theorem decN_temp_rest (n : Nat) (s : List UInt8) (ts : List (Nat × F32)) (r : List UInt8)
+    (h : decN decTemp n s = some (ts, r)) : r = s.drop (5 * n) := by
+  induction n generalizing s ts r with
+  | zero => simp [decN] at h; simp [h.2]
+  | succ n ih =>
+    unfold decN at h
+    cases hd : decTemp s with
+    | none => simp [hd] at h
+    | some p =>
+      obtain ⟨it, r1⟩ := p
+      have hr := decTemp_some _ _ _ hd
+      cases hN : decN decTemp n r1 with
+      | none => simp [hd, hN] at h
+      | some q =>
+        obtain ⟨ts', r2⟩ := q
+        simp [hd, hN] at h
+        have := ih _ _ _ hN
+        rw [← h.2, this, hr, List.drop_drop]
+        congr 1; omega
+
+/-- the model's remainder is the message from the returned offset on -/
+theorem temperatures_rest (s : List UInt8) (n : UInt8) (r0 : List UInt8) (fs : VFields) (r : List UInt8)
+    (hn : readByte s = some (n, r0)) (h : decTemperatures s = some (fs, r)) : r = s.drop (1 + 5 * n.toNat) := by
+  match s with
+  | [] => simp [readByte] at hn
+  | b :: s' =>
+    simp [readByte] at hn
+    simp only [decTemperatures, readByte, Option.bind_eq_bind, Option.bind_some] at h
+    cases hN : decN decTemp b.toNat s' with
+    | none => simp [hN] at h
+    | some q =>
+      obtain ⟨ts, r2⟩ := q
+      simp [hN] at h
+      have := decN_temp_rest _ _ _ _ hN
+      rw [← h.2, this, ← hn.1, Nat.add_comm 1, List.drop_succ_cons]
+
+/-! ### non-vacuity -/
+
+example : PyCode.StatusesStructure_decode (.bytes [9, 60, 1, 50, 0]) (.int 1) .none
+    = .ok (.tuple [.dict ["heating_target", "heating_status", "water_heater_target", "water_heater_status"]
+        [.int 60, .int 1, .int 50, .int 0], .int 5]) := rfl
+example : PyCode.StatusesStructure_decode (.bytes [60, 1, 50]) (.int 0) .none = .error .IndexError := rfl
+/-- outputs 0x8005: fan, heating pump, blow_fan2 -/
+example : (PyCode.OutputsStructure_decode (.bytes [0x05, 0x80, 0, 0]) (.int 0) .none).map
+      (fun r => match r with | .tuple [.dict _ vs, o] => (vs.take 3, vs.drop 15, o) | _ => ([], [], .none))
+    = .ok ([.bool true, .bool false, .bool true], [.bool true], .int 4) := rfl
+/-- lambda: state 3 (a LambdaState), target 13, level 0x007B = 123 -> 123 / 10 -/
+example : PyCode.LambdaSensorStructure_decode (.bytes [3, 13, 0x7B, 0]) (.int 0) .none
+    = .ok (.tuple [.dict ["lambda_state", "lambda_target", "lambda_level"] [.int 3, .int 13, ratioV 123 10], .int 4]) :=
+  (lambda_decode_eq [3, 13, 0x7B, 0] 0 .none trivial).trans rfl
+/-- state 7 is no LambdaState: kept as the number -/
+example : PyCode.LambdaSensorStructure_decode (.bytes [7, 13, 0x7B, 0]) (.int 0) .none
+    = .ok (.tuple [.dict ["lambda_state", "lambda_target", "lambda_level"] [.int 7, .int 13, ratioV 123 10], .int 4]) :=
+  (lambda_decode_eq [7, 13, 0x7B, 0] 0 .none trivial).trans rfl
+example : PyCode.LambdaSensorStructure_decode (.bytes [0xFF, 13]) (.int 0) .none = .ok (.tuple [.dict [] [], .int 1]) := rfl
+example : PyCode.LambdaSensorStructure_decode (.bytes [1, 13, 0x7B]) (.int 0) .none = .error .StructError := rfl
+/-- frame versions: type 49 twice (the later version wins, first position kept), type 200 (no FrameType) kept -/
+example : (PyCode.FrameVersionsStructure_decode (Py.mkobj "self" []) (.bytes [3, 49, 1, 0, 200, 2, 0, 49, 5, 1]) (.int 0) .none).map (·.1)
+    = .ok (.tuple [.dict ["frame_versions"] [.map [.int 49, .int 200] [.int 261, .int 2]], .int 10]) := rfl
+example : (PyCode.FrameVersionsStructure_decode (Py.mkobj "self" []) (.bytes [0]) (.int 0) .none).map (·.1)
+    = .ok (.tuple [.dict ["frame_versions"] [.dict [] []], .int 1]) := rfl
+example : (PyCode.FrameVersionsStructure_decode (Py.mkobj "self" []) (.bytes [2, 49, 1, 0, 50, 7]) (.int 0) .none).map (·.1)
+    = .error .StructError := rfl
+/-- temperatures: index 1 = 20.0, index 0 NaN (skipped), index 17 out of range (skipped), index 1 again = 0.0 (overwrites) -/
+example : PyCode.TemperaturesStructure_decode
+      (.bytes [4, 1, 0, 0, 0xA0, 0x41, 0, 0, 0, 0xC0, 0x7F, 17, 0, 0, 0xA0, 0x41, 1, 0, 0, 0, 0]) (.int 0) (.dict ["x"] [.int 1])
+    = .ok (.tuple [.dict ["x", "feeder_temp"] [.int 1, .float 4 0], .int 21]) := rfl
+
 end PlumVerif.TieStructSections2
